@@ -506,4 +506,181 @@ theorem blkIter_run (s : BlkState) (b : Nat) (bs : Bytes) (hz : (blkIter s (b ::
 theorem blkFeed_eq_runBytes (s : BlkState) (chunk : Bytes) :
     blkFeed s chunk = runBytes blkStep s chunk :=
   bulkLoop_eq_runBytes blkIter blkStep blkIter_halt blkIter_run s chunk
+
+/-! ## JSON tape decoder -/
+
+@[simp] theorem pushByte_curRow (t : Tape) (b : Nat) : (t.pushByte b).curRow = t.curRow := rfl
+@[simp] theorem pushBytes_curRow (t : Tape) (b : Bytes) : (t.pushBytes b).curRow = t.curRow := rfl
+@[simp] theorem pushEl_curRow (t : Tape) (e : TapeEl) : (t.pushEl e).curRow = t.curRow := rfl
+@[simp] theorem closeStr_curRow (t : Tape) (mk : Nat → TapeEl) : (t.closeStr mk).curRow = t.curRow := rfl
+
+theorem jFail_spec (s : JState) : (jFail s).1.tape = s.tape ∧ (jFail s).2 = [] := by simp [jFail]
+
+theorem jValue_curRow (s : JState) (rest : List JSt) (b : Nat) :
+    (jValue s rest b).1.tape.curRow = s.tape.curRow ∧ (jValue s rest b).2 = [] := by
+  unfold jValue
+  repeat' split
+  all_goals simp [jFail]
+
+theorem jFlush_curRow (cfg : JCfg) (s : JState) (n : Nat) (h : s.tape.curRow ≤ n) :
+    (jFlush cfg s).1.tape.curRow ≤ s.tape.curRow ∧ ∀ t ∈ (jFlush cfg s).2, t.curRow ≤ n := by
+  unfold jFlush
+  repeat' split
+  all_goals simp [Tape.empty]
+  exact h
+
+theorem jStartRow_curRow (cfg : JCfg) (hb : 1 ≤ cfg.batchSize) (s : JState) (b : Nat)
+    (h : s.tape.curRow ≤ cfg.batchSize) :
+    (jStartRow cfg s b).1.tape.curRow ≤ cfg.batchSize ∧ ∀ t ∈ (jStartRow cfg s b).2, t.curRow ≤ cfg.batchSize := by
+  unfold jStartRow
+  by_cases hfull : s.tape.curRow ≥ cfg.batchSize
+  · have hf := jFlush_curRow cfg s cfg.batchSize h
+    simp only [hfull, ↓reduceIte]
+    -- after a flush attempt: either error (state unchanged) or cleared / still ≤
+    have hcase : (jFlush cfg s).1.err.isSome = true ∨ (jFlush cfg s).1.tape.curRow = 0 := by
+      unfold jFlush
+      repeat' split
+      all_goals simp_all [Tape.empty]
+      all_goals omega
+    rcases hcase with he | h0
+    · simp only [he, ↓reduceIte]
+      exact ⟨by omega, hf.2⟩
+    · split
+      · exact ⟨by omega, hf.2⟩
+      · split <;> split <;> simp only [List.mem_append, (jValue_curRow _ _ _).1, (jValue_curRow _ _ _).2, List.not_mem_nil, or_false, h0] <;>
+          first | exact ⟨by omega, hf.2⟩ | skip
+  · simp only [hfull, ↓reduceIte]
+    have hlt : s.tape.curRow + 1 ≤ cfg.batchSize := by omega
+    split
+    · simp at *; omega
+    · split <;> split <;> simp [(jValue_curRow _ _ _).1, (jValue_curRow _ _ _).2] <;> omega
+
+theorem jStepMain_curRow (cfg : JCfg) (hb : 1 ≤ cfg.batchSize) (s : JState) (b : Nat)
+    (h : s.tape.curRow ≤ cfg.batchSize) :
+    (jStepMain cfg s b).1.tape.curRow ≤ cfg.batchSize ∧ ∀ t ∈ (jStepMain cfg s b).2, t.curRow ≤ cfg.batchSize := by
+  have hs := jStartRow_curRow cfg hb s b h
+  unfold jStepMain
+  repeat' split
+  all_goals first
+    | exact hs
+    | (simp [jFail, (jValue_curRow _ _ _).1, (jValue_curRow _ _ _).2]; done)
+    | (simp [jFail, (jValue_curRow _ _ _).1, (jValue_curRow _ _ _).2]; omega)
+    | (simp only []; split <;> simp [jFail] <;> omega)
+    | (simp only []; split <;> simp [jFail])
+
+theorem jStep_curRow (cfg : JCfg) (hb : 1 ≤ cfg.batchSize) (s : JState) (b : Nat)
+    (h : s.tape.curRow ≤ cfg.batchSize) :
+    (jStep cfg s b).1.tape.curRow ≤ cfg.batchSize ∧ ∀ t ∈ (jStep cfg s b).2, t.curRow ≤ cfg.batchSize := by
+  unfold jStep
+  split
+  · simp [h]
+  · split
+    · split
+      · simp [h]
+      · exact jStepMain_curRow cfg hb _ b (by simpa using h)
+    · exact jStepMain_curRow cfg hb s b h
+
+theorem jRun_curRow (cfg : JCfg) (hb : 1 ≤ cfg.batchSize) (s : JState) (xs : Bytes)
+    (h : s.tape.curRow ≤ cfg.batchSize) :
+    (runBytes (jStep cfg) s xs).1.tape.curRow ≤ cfg.batchSize ∧
+      ∀ t ∈ (runBytes (jStep cfg) s xs).2, t.curRow ≤ cfg.batchSize := by
+  induction xs generalizing s with
+  | nil => simp [runBytes, h]
+  | cons x xs ih =>
+    have h1 := jStep_curRow cfg hb s x h
+    have h2 := ih _ h1.1
+    simp only [runBytes, List.mem_append]
+    exact ⟨h2.1, fun t ht => ht.elim (h1.2 t) (h2.2 t)⟩
+theorem json_err_absorb (cfg : JCfg) (s : JState) (h : s.err.isSome) (xs : Bytes) :
+    runBytes (jStep cfg) s xs = (s, []) := by
+  induction xs with
+  | nil => simp [runBytes]
+  | cons x xs ih => simp [runBytes, jStep, h, ih]
+
+theorem pushByte_pushBytes (t : Tape) (x : Nat) (xs : Bytes) :
+    (t.pushByte x).pushBytes xs = t.pushBytes (x :: xs) := by
+  simp [Tape.pushByte, Tape.pushBytes]
+
+theorem pushBytes_nil (t : Tape) : t.pushBytes [] = t := by simp [Tape.pushBytes]
+
+/-- `skip_chrs(b'\\\\', b'"')` + `extend_from_slice`: a run of bytes without `\\` and `"` inside a
+string is copied to the tape buffer, exactly as stepping through it byte by byte -/
+theorem json_string_run (cfg : JCfg) (s : JState) (rest : List JSt) (run : Bytes)
+    (he : s.err = none) (hs : s.stack = .string :: rest) (hr : ∀ b ∈ run, b ≠ 92 ∧ b ≠ 34) :
+    runBytes (jStep cfg) s run = ({ s with tape := s.tape.pushBytes run }, []) := by
+  induction run generalizing s with
+  | nil => simp [runBytes, pushBytes_nil]
+  | cons x xs ih =>
+    have hx := hr x (by simp)
+    have step : jStep cfg s x = ({ s with tape := s.tape.pushByte x }, []) := by
+      simp [jStep, he, hs, jStepMain, hx.1, hx.2]
+    simp only [runBytes, step]
+    rw [ih _ (by simpa using he) (by simpa using hs) (fun b hb => hr b (by simp [hb]))]
+    simp [pushByte_pushBytes]
+
+/-- `advance_until(not a number char)` + `extend_from_slice` in `Number` -/
+theorem json_number_run (cfg : JCfg) (s : JState) (rest : List JSt) (run : Bytes)
+    (he : s.err = none) (hs : s.stack = .number :: rest) (hr : ∀ b ∈ run, numChar b = true) :
+    runBytes (jStep cfg) s run = ({ s with tape := s.tape.pushBytes run }, []) := by
+  induction run generalizing s with
+  | nil => simp [runBytes, pushBytes_nil]
+  | cons x xs ih =>
+    have hx := hr x (by simp)
+    have step : jStep cfg s x = ({ s with tape := s.tape.pushByte x }, []) := by
+      simp [jStep, he, hs, hx]
+    simp only [runBytes, step]
+    rw [ih _ (by simpa using he) (by simpa using hs) (fun b hb => hr b (by simp [hb]))]
+    simp [pushByte_pushBytes]
+
+/-- states whose arm starts with `skip_whitespace` / `advance_until(not ws and not ',')` -/
+def skipsByte (s : JState) (b : Nat) : Bool :=
+  match s.stack with
+  | [] => jsonWs b
+  | .topLevelList :: _ => jsonWs b || b == 44
+  | .object _ :: _ => jsonWs b || b == 44
+  | .list _ :: _ => jsonWs b || b == 44
+  | .value :: _ => jsonWs b
+  | .colon :: _ => jsonWs b
+  | _ => false
+
+/-- `skip_whitespace` / `advance_until`: a run of skippable bytes changes nothing -/
+theorem json_skip_run (cfg : JCfg) (s : JState) (run : Bytes)
+    (he : s.err = none) (hr : ∀ b ∈ run, skipsByte s b = true) :
+    runBytes (jStep cfg) s run = (s, []) := by
+  induction run with
+  | nil => simp [runBytes]
+  | cons x xs ih =>
+    have hx := hr x (by simp)
+    have step : jStep cfg s x = (s, []) := by
+      unfold skipsByte at hx
+      unfold jStep jStepMain
+      simp only [he, Option.isSome_none, Bool.false_eq_true, ↓reduceIte]
+      split at hx <;> simp_all
+    simp only [runBytes, step]
+    rw [ih (fun b hb => hr b (by simp [hb]))]
+    simp
+
+/-- the `zip` loop over a literal: feeding the remaining expected bytes completes it -/
+theorem json_literal_run (cfg : JCfg) (s : JState) (lit : Lit) (rest : List JSt) (idx : Nat)
+    (he : s.err = none) (hs : s.stack = .literal lit idx :: rest) (hi : idx < lit.bytes.length) :
+    runBytes (jStep cfg) s (lit.bytes.drop idx) =
+      ({ s with tape := s.tape.pushEl lit.element, stack := rest }, []) := by
+  induction hk : lit.bytes.length - idx generalizing s idx with
+  | zero => omega
+  | succ k ih =>
+    have hd : lit.bytes.drop idx = lit.bytes[idx] :: lit.bytes.drop (idx + 1) := by
+      rw [List.drop_eq_getElem_cons hi]
+    rw [hd]
+    simp only [runBytes]
+    by_cases hlast : idx + 1 = lit.bytes.length
+    · have : jStep cfg s lit.bytes[idx] = ({ s with tape := s.tape.pushEl lit.element, stack := rest }, []) := by
+        simp [jStep, he, hs, jStepMain, hlast]
+      rw [this]
+      have : lit.bytes.drop (idx + 1) = [] := by rw [hlast]; simp
+      simp [this, runBytes]
+    · have : jStep cfg s lit.bytes[idx] = ({ s with stack := .literal lit (idx + 1) :: rest }, []) := by
+        simp [jStep, he, hs, jStepMain, hlast]
+      rw [this]
+      rw [ih _ (idx + 1) (by simpa using he) (by simp) (by omega) (by omega)]
+      simp
 end ArrowModel.C14
